@@ -142,28 +142,19 @@ fn debug_text(ctx: &mut Ctx) {
             for (k, t) in texts(&o) {
                 out.push((format!("v{}@0", v), k, t, None));
             }
+            bmv_core::spy::log_start();
             for op in ops.iter() {
                 o.step(op);
-                twin.step(op);
             }
-            // position inside the current block: from the operations themselves (OFB has no
-            // position query)
-            let mut shadow: u128 = 0;
-            for op in ops.iter() {
-                match op {
-                    Op::Apply(_, d) => shadow += d.len() as u128,
-                    Op::Seek(p) => shadow = *p,
-                    _ => {}
-                }
-            }
-            let unused = if let (Obj::Stream(_), Obj::Stream(t)) = (&o, &mut twin) {
-                let left = (b - (shadow % b as u128) as usize) % b;
-                let z = vec![0u8; left];
-                let mut ks = vec![0u8; left];
-                if t.try_apply(Form::B2b, &z, &mut ks) { Some(ks) } else { None }
+            let _ = &mut twin;
+            // The most recent keystream block the spy cipher produced for this object: if the
+            // Debug text lists L bytes, they are claimed to be its last L bytes.
+            let last_ks: Option<Vec<u8>> = if matches!(o, Obj::Stream(_)) {
+                bmv_core::spy::log_take().into_iter().filter(|e| e.dir == bmv_core::spy::Dir::E).last().map(|e| e.out)
             } else {
                 None
             };
+            let unused = last_ks;
             for (k, t) in texts(&o) {
                 out.push((format!("v{}@{}", v, ops.len()), k, t, unused.clone()));
             }
@@ -193,8 +184,8 @@ fn debug_text(ctx: &mut Ctx) {
                 for (x, s) in of_kind.iter().zip(&stripped) {
                     let list = &s.as_ref().unwrap().1;
                     match &x.3 {
-                        Some(unused) => {
-                            if list == unused {
+                        Some(last_block) => {
+                            if list.len() <= last_block.len() && last_block.ends_with(list) {
                                 if !list.is_empty() {
                                     witnessed = Some((x.0.clone(), list.clone()));
                                 }
@@ -251,19 +242,43 @@ fn windows(v: &[u8], out: &mut Vec<(Vec<u8>, &'static str)>, what: &'static str)
     }
 }
 
-fn count_hits(mem: &[u8], needles: &[(Vec<u8>, &'static str)]) -> (usize, Option<&'static str>) {
+/// (number of needles found, [(what, offset)] of the hits, at most 6)
+fn count_hits(mem: &[u8], needles: &[(Vec<u8>, &'static str)]) -> (usize, Vec<(&'static str, usize)>) {
     let mut hits = 0;
-    let mut which = None;
+    let mut which = Vec::new();
     if mem.len() < 8 {
-        return (0, None);
+        return (0, which);
     }
     for (n, what) in needles {
-        if mem.windows(8).any(|w| w == &n[..]) {
+        if let Some(off) = mem.windows(8).position(|w| w == &n[..]) {
             hits += 1;
-            which.get_or_insert(*what);
+            if which.len() < 6 && !which.iter().any(|(_, o): &(&str, usize)| (*o as i64 - off as i64).abs() < 8) {
+                which.push((*what, off));
+            }
         }
     }
     (hits, which)
+}
+
+/// Liveness probe: are the 8 bytes at `off` state the object actually uses? Two fresh objects
+/// replay the history; one gets those bytes flipped in its raw storage; then both are driven
+/// through the same probe operations. Identical behaviour = dead bytes (alignment padding that
+/// merely kept stale stack data when the value was moved to the heap), not object state.
+fn bytes_are_live(mk: &Mk, key: &[u8], iv: &[u8], ops: &[Op], probes: &[Op], off: usize) -> bool {
+    let r = guard(|| {
+        let mut a = mk.make(key, iv);
+        let mut b = mk.make(key, iv);
+        for op in ops {
+            a.step(op);
+            b.step(op);
+        }
+        b.poke(off, &[0x5A, 0xC3, 0x96, 0x0F, 0xF0, 0x69, 0x3C, 0xA5]);
+        let ra: Vec<Vec<u8>> = probes.iter().map(|op| a.step(op)).collect();
+        let rb: Vec<Vec<u8>> = probes.iter().map(|op| b.step(op)).collect();
+        ra != rb
+    });
+    // a panic after the flip also means the bytes mattered
+    r.unwrap_or(true)
 }
 
 fn zeroize(ctx: &mut Ctx) {
@@ -366,8 +381,15 @@ fn zeroize(ctx: &mut Ctx) {
         };
         let before = count_hits(&scan.before, &needles);
         let after = count_hits(&scan.after, &needles);
+        if std::env::var("BMV_DUMP").is_ok() {
+            eprintln!("IV     {}", bmv_core::util::hex(&iv));
+            for (i, (b4, af)) in scan.before.chunks(16).zip(scan.after.chunks(16)).enumerate() {
+                eprintln!("{:4} {} | {}", i * 16, bmv_core::util::hex(b4), bmv_core::util::hex(af));
+            }
+        }
         (needles.len(), before, after, scan.before.len())
     });
+    let probes: Vec<Op> = (0..5).map(|_| mk.gen_op(ctx)).collect();
     ctx.st.api_calls += 2 * nops as u64 + 4;
     match r {
         Err(p) => ctx.panic_violation(&name, &p),
@@ -381,10 +403,20 @@ fn zeroize(ctx: &mut Ctx) {
             if after.0 > 0 {
                 ctx.st.count(&format!("zeroize.after-drop-hit.{}", name));
                 if cfg!(feature = "zeroize") {
-                    return ctx.violation(
-                        &format!("C17/zeroize/{}", name),
-                        format!("after drop (feature zeroize on) {} of {} secret 8-byte windows are still present in the object's {} bytes of storage; first: {}", after.0, nneedles, size, after.1.unwrap_or("?")),
-                    );
+                    // only bytes the object actually uses are "its IV, nonce, counter and
+                    // feedback state": alignment padding that kept stale stack data when the
+                    // value was moved into the storage is excluded by a liveness probe
+                    let live: Vec<(&str, usize)> = after.1.iter().cloned().filter(|(_, off)| bytes_are_live(&mk, &key, &iv, &ops, &probes, *off)).collect();
+                    if let Some((what, off)) = live.first() {
+                        return ctx.violation(
+                            &format!("C17/zeroize/{}", name),
+                            format!(
+                                "after drop (feature zeroize on) {} of {} secret 8-byte windows are still present in the object's {} bytes of storage; e.g. {} at byte offset {} (live: flipping these bytes changes the object's behaviour)",
+                                after.0, nneedles, size, what, off
+                            ),
+                        );
+                    }
+                    ctx.st.count("zeroize.stale-padding-hit-ignored(dead bytes)");
                 }
             }
             ctx.nontrivial = true;
